@@ -67,9 +67,13 @@ def rnd_desc(rng: random.Random, i: int) -> dict[str, Any]:
     t_start = 0.5
     tl.append([t_start, 'start', 'op1'])
     t = 8.0
+    # bursts: several changes (often of ONE object) in the same instant or a millisecond apart -- the later events wait in the object's backlog
+    # while the earlier one is being processed; every one of them is indexed, in order (results None / ignored errors / errors are stateful)
+    rb = random.Random(rng.random())
+    burst = rb.random() < 0.4
     for k in range(rng.randint(4, 14)):
-        t = round(t + 1.0, 3)
-        n = rng.choice(names)
+        t = round(t + (rb.choice([0.0, 0.0, 0.001, 1.0]) if burst else 1.0), 3)
+        n = rng.choice(names) if not (burst and rb.random() < 0.6) else names[0]
         r = rng.random()
         if r < 0.25:
             tl.append([t, 'create', n, body(n)])
